@@ -293,6 +293,7 @@ class EpisodeMonitor:
                 self.suspended[cid] = (fi, o["key"], o["would"] if uniq else None)
                 if o["blocked"]:
                     self.fail("C20", f"{op}: while the call is suspended at its await a conditional invalidation of the same cache did not complete (a cache lock is held across the await)")
+                    self.fail("C17", f"{op}: a conditional invalidation issued while another call of the same cache is suspended at its await did not complete: the two wait on each other (a cache lock is held across the await)")
                 # the lookup phase must not create or change any entry
                 if prev is not None:
                     for lbl, d in dumps.items():
@@ -447,7 +448,7 @@ class EpisodeMonitor:
         self.prev = dumps
 
 
-EPISODE_TIMEOUT = 180      # an episode of 50 operations takes well under a second; minutes mean an operation never returned
+EPISODE_TIMEOUT = 90      # an episode of 50 operations takes well under a second; minutes mean an operation never returned
 HANGS = []                 # seeds of episodes that hung in this run (circuit breaker: after 3 no further episode is started)
 
 
